@@ -21,10 +21,13 @@ type GenOpt struct {
 	NoOmitDataOffset  bool // trun.data_offset always present
 	NoExtraBoxes      bool // no pre/in-moof/in-traf boxes at all
 	NoPreNonEmsg      bool // of the pre boxes only emsg
-	NoEmptyRuns       bool // no trun with sample_count 0
-	NoEmptyFrags      bool // every fragment has at least one run (needs samples; else a single fragment may be empty)
-	NoMdatLarge       bool
-	NoBigTrackIDs     bool // track IDs 1..8 only
+	// NoNonEmsgAtTopSidxAnchor: with a top-level sidx and no styp, the first fragment of the file has
+	// only emsg pre boxes (so that the byte the sidx points at is an emsg or the moof).
+	NoNonEmsgAtTopSidxAnchor bool
+	NoEmptyRuns              bool // no trun with sample_count 0
+	NoEmptyFrags             bool // every fragment has at least one run (needs samples; else a single fragment may be empty)
+	NoMdatLarge              bool
+	NoBigTrackIDs            bool // track IDs 1..8 only
 }
 
 func (o GenOpt) norm() GenOpt {
@@ -109,10 +112,10 @@ func GenTracks(t *rapid.T, opt GenOpt) []Track {
 		n := rapid.IntRange(0, opt.MaxSamples).Draw(t, "nsamples")
 		baseDur := rapid.SampledFrom(durPalette).Draw(t, "baseDur")
 		baseSize := rapid.IntRange(0, 100).Draw(t, "baseSize")
-		durMode := rapid.IntRange(0, 2).Draw(t, "durMode")     // 0 all equal, 1 mostly equal, 2 palette
-		sizeMode := rapid.IntRange(0, 3).Draw(t, "sizeMode")   // 0 all equal, 1 mostly equal, 2 random, 3 all zero
-		flagMode := rapid.IntRange(0, 3).Draw(t, "flagMode")   // 0 all sync, 1 first sync, 2 gop, 3 palette
-		ctoMode := rapid.IntRange(0, 3).Draw(t, "ctoMode")     // 0 zero, 1 same non-zero, 2 non-negative, 3 with negative
+		durMode := rapid.IntRange(0, 2).Draw(t, "durMode")   // 0 all equal, 1 mostly equal, 2 palette
+		sizeMode := rapid.IntRange(0, 3).Draw(t, "sizeMode") // 0 all equal, 1 mostly equal, 2 random, 3 all zero
+		flagMode := rapid.IntRange(0, 3).Draw(t, "flagMode") // 0 all sync, 1 first sync, 2 gop, 3 palette
+		ctoMode := rapid.IntRange(0, 3).Draw(t, "ctoMode")   // 0 zero, 1 same non-zero, 2 non-negative, 3 with negative
 		gop := rapid.IntRange(1, 5).Draw(t, "gop")
 		tr.Samples = make([]Sample, n)
 		for i := range tr.Samples {
@@ -401,7 +404,11 @@ func GenLayout(t *rapid.T, tracks []Track, opt GenOpt) FileLayout {
 				fr.MdatLarge = rapid.IntRange(0, 3).Draw(t, "mdatLarge") == 0
 			}
 			if !opt.NoExtraBoxes {
-				fr.PreBoxes = genExtras(t, "npre", preKinds, tracks[0].ID)
+				pk := preKinds
+				if opt.NoNonEmsgAtTopSidxAnchor && lay.TopSidx && !styp && f == 0 {
+					pk = []string{"emsg0", "emsg1"}
+				}
+				fr.PreBoxes = genExtras(t, "npre", pk, tracks[0].ID)
 				fr.InMoofBoxes = genExtras(t, "ninmoof", innerKinds, tracks[0].ID)
 				fr.InTrafBoxes = genExtras(t, "nintraf", innerKinds, tracks[0].ID)
 			}
